@@ -75,10 +75,12 @@ class Env:
         new_vars = set(env) - env_vars
 
         # update names of environment variables
+        _yp('env.names_update')
         env_vars.update(new_vars)
 
         # update mapping of cleaned environment variables (if needed)
         if cls._accessed_cleaned_to_env:
+            _yp('env.cleaned_update')
             cls.cleaned_to_env.update(
                 (clean(var), var) for var in new_vars
             )
@@ -116,6 +118,7 @@ class Env:
         # reload cached mapping of environment variables
         cls.reload(secret_values)
         # update `environ` with new environment variables
+        _yp('env.secrets_update')
         environ.update(secret_values)
 
     @classmethod
@@ -150,6 +153,7 @@ class Env:
         # reload cached mapping of environment variables
         cls.reload(dotenv_values)
         # update `environ` with new environment variables
+        _yp('env.dotenv_update')
         environ.update(dotenv_values)
 
     # noinspection PyDunderSlots,PyUnresolvedReferences,PyClassVar
